@@ -1,9 +1,11 @@
 // c19 — correspondence harness + property search for C19 (lib/others/qdb behaves as a durable map).
 //
 // Three parties see the same request lines:
-//   W  the REAL qdb package, in a child process (`c19 worker`, see worker.go) on a private temp directory;
-//   O  the Lean model (oracle_c19, GocoinV.Model.Qdb);
-//   R  a plain Go map + the durability predicate (ref.go) — the property itself, independent of the model.
+//
+//	W  the REAL qdb package, in a child process (`c19 worker`, see worker.go) on a private temp directory;
+//	O  the Lean model (oracle_c19, GocoinV.Model.Qdb);
+//	R  a plain Go map + the durability predicate (ref.go) — the property itself, independent of the model.
+//
 // After every request W's reply (result, DataSeq/VersionSequence/DatfileIndex/space counters/#pending, directory
 // listing name:size) must equal O's; after every state-changing request `count` and `peek` (BrowseAll) are compared
 // with R and O. With snapshots on, W copies the directory at every vhook.Point inside sync/defrag/writedatfile/
@@ -23,6 +25,7 @@ import (
 	"os/exec"
 	"strconv"
 	"strings"
+	"time"
 
 	"verif/vlib"
 )
@@ -38,6 +41,7 @@ type proc struct {
 	root string
 	errb *bytes.Buffer
 	dead bool
+	spent time.Duration
 }
 
 func startProc() *proc {
@@ -66,6 +70,8 @@ func (p *proc) ask(line string) (string, bool) {
 	if p.dead {
 		return "", false
 	}
+	t0 := time.Now()
+	defer func() { p.spent += time.Since(t0) }()
 	if _, err := io.WriteString(p.in, line+"\n"); err != nil {
 		p.dead = true
 		return "", false
@@ -195,27 +201,26 @@ func runCase(c caseT) bool {
 			}
 		}
 		ref.after(t, wstate)
-		// observation after every step: count and the full content
+		// observation after every step: Count and the full content (BrowseAll)
 		if op != "close" && op != "count" && op != "peek" {
-			for _, q := range []string{"count", "peek"} {
-				qr, alive := W.ask(q)
-				qo := o.MustAsk(q)
-				if !alive {
-					r.PropFail("prop:dead:"+q, fmt.Sprintf("%s after request %d %q killed the process (%s)", q, i, short(line), W.lastErr()), upto(i))
-					fresh(&W)
-					return false
-				}
-				qres, _ := splitRes(qr)
-				if bad := ref.check([]string{q}, qres); bad != "" {
-					r.PropFail("prop:"+q, fmt.Sprintf("%s after request %d %q: %s", q, i, short(line), bad), upto(i))
-					return false
-				}
-				if qr != qo {
-					r.TieFail("tie:"+q, fmt.Sprintf("%s after request %d %q: impl %q model %q", q, i, short(line), short(qr), short(qo)), upto(i))
-					return false
-				}
-				r.TieOK()
+			q := "peek"
+			qr, alive := W.ask(q)
+			qo := o.MustAsk(q)
+			if !alive {
+				r.PropFail("prop:dead:"+q, fmt.Sprintf("%s after request %d %q killed the process (%s)", q, i, short(line), W.lastErr()), upto(i))
+				fresh(&W)
+				return false
 			}
+			qres, _ := splitRes(qr)
+			if bad := ref.check([]string{q}, qres); bad != "" {
+				r.PropFail("prop:"+q, fmt.Sprintf("%s after request %d %q: %s", q, i, short(line), bad), upto(i))
+				return false
+			}
+			if qr != qo {
+				r.TieFail("tie:"+q, fmt.Sprintf("%s after request %d %q: impl %q model %q", q, i, short(line), short(qr), short(qo)), upto(i))
+				return false
+			}
+			r.TieOK()
 		}
 	}
 	return true
@@ -238,9 +243,24 @@ func crashCheck(c caseT, i int, t []string, ref *refT) bool {
 			if R.dead {
 				fresh(&R)
 			}
-			rec, alive := R.ask("recover " + path)
+			cmd := "probe "
+			if tag == "before" {
+				cmd = "recover "
+			}
+			rep, alive := R.ask(cmd + path)
 			crashPoints++
 			r.Hit("crash@" + tag)
+			rec, pr := rep, ""
+			if bar := strings.IndexByte(rep, '|'); bar >= 0 {
+				rec, pr = rep[:bar], rep[bar+1:]
+			}
+			if !alive && cmd == "probe " { // did the plain reopen already fail?
+				fresh(&R)
+				rec, alive = R.ask("recover " + path)
+				if alive {
+					pr, alive = "(process died)", true
+				}
+			}
 			if !alive {
 				what := fmt.Sprintf("request %d %q, crash at %s: the store does not open (%s)", i, short(c.Lines[i]), tag, R.lastErr())
 				r.PropFail("prop:open:"+tag, what, map[string]interface{}{"case": upto, "crash_at": tag})
@@ -252,13 +272,7 @@ func crashCheck(c caseT, i int, t []string, ref *refT) bool {
 				return false
 			}
 			// continuation probe: the recovered store must keep working durably
-			if tag == "before" {
-				real = append(real, rec)
-				continue
-			}
-			pr, alive := R.ask("probe " + path)
-			want := withSentinel(rec)
-			if !alive || pr != want {
+			if want := withSentinel(rec); cmd == "probe " && pr != want {
 				what := fmt.Sprintf("request %d %q, crash at %s: after recovery, Put+Sync+Close+reopen gives %q, want %q (%s)", i, short(c.Lines[i]), tag, short(pr), short(want), R.lastErr())
 				r.PropFail("prop:probe:"+tag, what, map[string]interface{}{"case": upto, "crash_at": tag})
 				return false
@@ -322,7 +336,7 @@ func main() {
 		n++
 	}
 	g := r.Rng
-	ncases := r.N(150, 1500)
+	ncases := r.N(250, 4000)
 	for i := 0; i < ncases && r.Violations() == 0; i++ {
 		c := genCase(g.Fork(), i)
 		r.Eval("generated", strings.Join(c.Lines, "\n"))
@@ -350,6 +364,8 @@ func firstLines(c caseT, n int) []string {
 func finish() {
 	r.Extra["crash_points_evaluated"] = crashPoints
 	r.Extra["recovered_states_distinct_per_request_sum"] = crashStatesDistinct
+	r.Extra["seconds_in_impl_worker"] = W.spent.Seconds()
+	r.Extra["seconds_in_recovery_worker"] = R.spent.Seconds()
 	r.Extra["exhaustive"] = false
 	r.Extra["crash_enumeration"] = "for every generated/corpus sequence with snapshots on: every vhook.Point hit inside every request (all points x all hits) + before/after; not exhaustive over sequences"
 	W.stop()
